@@ -14,6 +14,10 @@ import (
 	abci "github.com/cometbft/cometbft/abci/types"
 	cmtproto "github.com/cometbft/cometbft/proto/tendermint/types"
 
+	gethtypes "github.com/ethereum/go-ethereum/core/types"
+
+	bsctypes "github.com/bianjieai/tibc-go/modules/tibc/light-clients/08-bsc/types"
+	ethtypes "github.com/bianjieai/tibc-go/modules/tibc/light-clients/09-eth/types"
 	"github.com/bianjieai/tibc-go/simapp"
 
 	"verif/mc/explore"
@@ -369,9 +373,89 @@ func CheckC16(tier string) int {
 		scen = append(scen, map[string]any{"name": m.Name, "states": r.States, "transitions": r.Transitions, "depth_bound": depths[i], "cap_hit": r.CapHit})
 		fmt.Fprintf(os.Stderr, "[C16] scenario %s: states=%d transitions=%d %s (%.1fs)\n", m.Name, r.States, r.Transitions, r.CapHit, time.Since(start).Seconds())
 	}
+	// ---- part 2: a chain holding a BSC client (after header updates incl. an epoch) and an ETH client (after fork
+	// switches) is exported and re-imported; both must then react identically to the next headers
+	evmReimports := 0
+	{
+		w := world.NewWorld(world.WorldOpts{Names: []string{A, B}})
+		a := w.C(A)
+		ck := a.App.TIBCKeeper.ClientKeeper
+		ctx := a.Ctx()
+		sc := bscScenario{N: 3, Epoch: 4}
+		gen, vals := sc.genesis()
+		gen.Time = uint64(w.Now.Unix())
+		var vb [][]byte
+		for _, v := range sortedAddrs(vals) {
+			vb = append(vb, v.Bytes())
+		}
+		must(ck.CreateClient(ctx, bscName, &bsctypes.ClientState{Header: gen, ChainId: bscChainID, Epoch: sc.Epoch, BlockInteval: 3, Validators: vb, ContractAddress: make([]byte, 20), TrustingPeriod: 1 << 30},
+			&bsctypes.ConsensusState{Timestamp: gen.Time, Number: gen.Height, Root: gen.Root}))
+		st := bscState{Ghost: bscGhost{Number: gen.Height.RevisionHeight, Vals: vals, Pending: vals, Signers: map[uint64]int{}, Epoch: sc.Epoch}}
+		parent := gen
+		nextBsc := func() *bsctypes.Header {
+			for _, s := range sc.menu(st) {
+				if st.Ghost.expect(s) && !strings.Contains(s.Label, "corrupted") {
+					h := s.build(parent)
+					st = bscState{Hist: append(st.Hist, s), Ghost: st.Ghost.apply(s)}
+					return h
+				}
+			}
+			panic("no valid bsc header")
+		}
+		for i := 0; i < 6; i++ {
+			h := nextBsc()
+			must(ck.UpdateClient(ctx, bscName, h))
+			parent = *h
+		}
+		ethtypes.SealCheck = false
+		g := ethGenesis()
+		g.Time = uint64(w.Now.Unix()) - 100
+		gh := toRepoHeader(g)
+		must(ck.CreateClient(ctx, ethName, &ethtypes.ClientState{Header: *gh, ChainId: 1, ContractAddress: make([]byte, 20), TrustingPeriod: 1 << 30},
+			&ethtypes.ConsensusState{Timestamp: g.Time, Number: gh.Height, Root: g.Root[:]}))
+		n0 := ethChild(g, 5, "n0", "0")
+		n1 := ethChild(g, 6, "n1", "1")
+		n2 := ethChild(n0, 5, "n2", "2")
+		n3 := ethChild(n1, 5, "n3", "3")
+		for _, h := range []gethtypes.Header{n0, n1, n2, n3} {
+			must(ck.UpdateClient(ctx, ethName, toRepoHeader(h)))
+		}
+		a.CommitEmpty(w.Tick())
+		a.CommitEmpty(w.Tick())
+		re, err := Reimport(a, w.Now.Add(world.Step))
+		evmReimports++
+		if err != nil {
+			addF([]string{"evm-clients"}, "export-or-import-fails", err.Error())
+		} else {
+			for sig, detail := range compareDumps(a, re) {
+				addF([]string{"evm-clients", A}, "state-"+sig+":evm-clients", detail)
+			}
+			// continuation: the next BSC header and two ETH headers (one extending the head, one switching forks)
+			hb := nextBsc()
+			n4 := ethChild(n3, 5, "n4", "4")
+			n5 := ethChild(n2, 5, "n5", "5")
+			for _, c := range []*world.Chain{a, re} {
+				_ = c
+			}
+			verdict := func(c *world.Chain) string {
+				cctx := c.ReadCtx(w.Now.Add(10 * world.Step))
+				k := c.App.TIBCKeeper.ClientKeeper
+				out := fmt.Sprint(k.UpdateClient(cctx, bscName, hb) == nil)
+				out += fmt.Sprint(k.UpdateClient(cctx, ethName, toRepoHeader(n4)) == nil)
+				out += fmt.Sprint(k.UpdateClient(cctx, ethName, toRepoHeader(n5)) == nil)
+				d := world.HashKVs(world.DumpStore(cctx, "tibc", c.App.GetKey("tibc"), []byte("clients/")), nil)
+				return fmt.Sprintf("%s %x", out, d[:8])
+			}
+			if v1, v2 := verdict(a), verdict(re); v1 != v2 {
+				addF([]string{"evm-clients", "next headers"}, "reimported-chain-reacts-differently:evm-client-updates", fmt.Sprintf("original %s, re-imported %s", v1, v2))
+			}
+		}
+		ethtypes.SealCheck = true
+	}
 	sort.Slice(findings, func(i, j int) bool { return findings[i].Signature < findings[j].Signature })
 	cov := map[string]any{
-		"states": states, "transitions": trans + continuations, "traces_validated_against_impl": reimports,
+		"evm_client_reimports": evmReimports,
+		"states":               states, "transitions": trans + continuations, "traces_validated_against_impl": reimports,
 		"states_exported": statesChecked, "reimports": reimports, "continuation_actions_compared": continuations,
 		"scenarios": scen, "samples": samples, "exhaustive": exhaustive,
 		"bounds": fmt.Sprintf("every distinct state of: core3 with cleans, NFT transfers over three chains (incl. relay and error acks), core2 with counterparty heights passing 47 and 303 (0x2f in the big-endian height), up to depth %d; every chain of every state is exported and re-imported into a fresh application; stores tibc/NFT/MT/nft/mt compared byte for byte; every honest relayer action involving the re-imported chain executed on both worlds", depth),
